@@ -564,7 +564,7 @@ impl<'a> VisitMut for BreakValuePass<'a> {
 // ---------------------------------------------------------------------------------------------
 // R6: for -> loop { match it.next() { Some(P) => B, None => break } }
 
-struct ForPass<'a> { rules: &'a mut Rules, which: ForSel }
+struct ForPass<'a> { rules: &'a mut Rules, which: ForSel, into_iter: Vec<u64> }
 enum ForSel { None, All, Some(Vec<u64>) }
 impl<'a> VisitMut for ForPass<'a> {
     fn visit_expr_mut(&mut self, e: &mut Expr) {
@@ -586,7 +586,12 @@ impl<'a> VisitMut for ForPass<'a> {
             let label = &f.label;
             let attrs = &f.attrs;
             let lp: Expr = parse_quote!(#(#attrs)* #label loop { match #it.next() { Some(#pat) => #body None => break, } });
-            *e = parse_quote!({ let mut #it = #expr; #lp });
+            if self.into_iter.contains(&n) {
+                self.rules.hit("R6.into_iter");
+                *e = parse_quote!({ let mut #it = (#expr).into_iter(); #lp });
+            } else {
+                *e = parse_quote!({ let mut #it = #expr; #lp });
+            }
         }
     }
 }
@@ -655,6 +660,7 @@ impl<'a> VisitMut for ChainPass<'a> {
             let new: Expr = match sp.recv_mode.as_str() {
                 "mut" => parse_quote!(#w(&mut #recv #(, #args)*)),
                 "ref" => parse_quote!(#w(& #recv #(, #args)*)),
+                "unit" => parse_quote!(#w()),
                 _ => parse_quote!(#w(#recv #(, #args)*)),
             };
             sp.used += 1;
@@ -867,8 +873,12 @@ impl<'a> VisitMut for InsertPass<'a> {
                 let target = user_loop_body(body);
                 for (start, st) in todo {
                     if start { target.stmts.insert(0, st); } else {
-                        let has_tail = matches!(target.stmts.last(), Some(Stmt::Expr(_, None)));
-                        if has_tail { let n = target.stmts.len() - 1; target.stmts.insert(n, st); } else { target.stmts.push(st); }
+                        // a loop body has type (): append; a non-block-like trailing expression gets its `;`
+                        if let Some(Stmt::Expr(e, semi @ None)) = target.stmts.last_mut() {
+                            let block_like = matches!(e, Expr::If(_) | Expr::Match(_) | Expr::Block(_) | Expr::Loop(_) | Expr::While(_) | Expr::ForLoop(_) | Expr::Unsafe(_) | Expr::Verbatim(_));
+                            if !block_like { *semi = Some(Default::default()); }
+                        }
+                        target.stmts.push(st);
                     }
                 }
             }
@@ -992,7 +1002,8 @@ fn process_fn(
         Some(Value::Array(a)) => ForSel::Some(a.iter().filter_map(|x| x.as_u64()).collect()),
         _ => ForSel::None,
     };
-    ForPass { rules, which }.visit_block_mut(block);
+    let into_iter: Vec<u64> = spec.get("for_into_iter").and_then(|v| v.as_array()).map(|a| a.iter().filter_map(|x| x.as_u64()).collect()).unwrap_or_default();
+    ForPass { rules, which, into_iter }.visit_block_mut(block);
     // R7 chains
     let mut chains: Vec<ChainSpec> = vec![];
     if let Some(Value::Array(a)) = spec.get("adapts") {
@@ -1214,6 +1225,7 @@ fn process_struct_like(item: &mut Item, spec: &Value, cfg: &AttrCfg, rules: &mut
         }
         Item::Const(c) => { filter_attrs(&mut c.attrs, cfg, rules); c.vis = parse_quote!(pub); markers.subst(&print_tokens(quote!(#pm #c))) }
         Item::Type(t) => { filter_attrs(&mut t.attrs, cfg, rules); t.vis = parse_quote!(pub); markers.subst(&print_tokens(quote!(#pm #t))) }
+        Item::Static(t) => { filter_attrs(&mut t.attrs, cfg, rules); t.vis = parse_quote!(pub); markers.subst(&print_tokens(quote!(#pm #t))) }
         Item::Trait(t) => {
             filter_attrs(&mut t.attrs, cfg, rules);
             t.vis = parse_quote!(pub);
@@ -1287,11 +1299,12 @@ fn main() {
                     Item::Const(s) => Some(s.ident.to_string()),
                     Item::Type(s) => Some(s.ident.to_string()),
                     Item::Trait(s) => Some(s.ident.to_string()),
+                    Item::Static(s) => Some(s.ident.to_string()),
                     _ => None,
                 };
                 if name.as_deref() != Some(rest[0]) { continue; }
                 // skip cfg'd-off duplicates
-                let attrs: &Vec<Attribute> = match it { Item::Fn(f) => &f.attrs, Item::Struct(s) => &s.attrs, Item::Enum(s) => &s.attrs, Item::Const(s) => &s.attrs, Item::Type(s) => &s.attrs, Item::Trait(s) => &s.attrs, _ => unreachable!() };
+                let attrs: &Vec<Attribute> = match it { Item::Fn(f) => &f.attrs, Item::Struct(s) => &s.attrs, Item::Enum(s) => &s.attrs, Item::Const(s) => &s.attrs, Item::Type(s) => &s.attrs, Item::Trait(s) => &s.attrs, Item::Static(s) => &s.attrs, _ => unreachable!() };
                 if attrs.iter().any(|a| cfg_decision(a, &features) == Some(false)) { continue; }
                 let fp = fingerprint(&it.to_token_stream());
                 let (ls, le) = find_line_range(it);
